@@ -131,6 +131,29 @@ fn wide_int_chain(rng: &mut Rng) -> Vec<Coord<f64>> {
     v
 }
 
+/// 64 … 300 decimal coordinates (multiples of 0.1 / 0.01: not dyadic) among which several hull vertices are nearly
+/// collinear with their neighbours: points `B + t (R − B)` computed in f64 lie within an ulp of the chord, on either side
+fn many_decimal(rng: &mut Rng) -> Vec<Coord<f64>> {
+    let n = 64 + rng.below(240) as usize;
+    let d = |rng: &mut Rng, lo: i64, hi: i64| rng.range(lo, hi) as f64 * if rng.chance(1, 2) { 0.1 } else { 0.01 };
+    let (l, b, r, t) = (Coord { x: d(rng, -40, -20), y: d(rng, -5, 5) }, Coord { x: d(rng, -5, 5), y: d(rng, -40, -20) },
+                        Coord { x: d(rng, 20, 40), y: d(rng, -5, 5) }, Coord { x: d(rng, -5, 5), y: d(rng, 20, 40) });
+    let mut v = vec![l, b, r, t];
+    let sides = [(l, b), (b, r), (r, t), (t, l)];
+    while v.len() < n {
+        let (p, q) = *rng.pick(&sides);
+        let tt = rng.range(1, 99) as f64 / 100.0;
+        let on = Coord { x: p.x + tt * (q.x - p.x), y: p.y + tt * (q.y - p.y) };
+        match rng.below(4) {
+            0 => v.push(on),                                                     // within an ulp of the side
+            1 => v.push(Coord { x: on.x * 0.5, y: on.y * 0.5 }),                 // well inside
+            _ => v.push(Coord { x: d(rng, -15, 15), y: d(rng, -15, 15) }),       // inside
+        }
+    }
+    rng.shuffle(&mut v);
+    v
+}
+
 fn gen_pts(rng: &mut Rng) -> (Vec<Coord<f64>>, bool) {
     let k = *rng.pick(&[3i64, 4, 5, 6, 6, 8]);
     let n = if rng.chance(1, 12) { rng.below(4) as usize } else { 4 + rng.below(13) as usize };
@@ -144,7 +167,7 @@ fn gen_pts(rng: &mut Rng) -> (Vec<Coord<f64>>, bool) {
             v.insert(at, grid_coord(rng, k));
             (v, false)
         }
-        3 => (wide_int_chain(rng), true),
+        3 => if rng.chance(1, 2) { (wide_int_chain(rng), true) } else { (many_decimal(rng), true) },
         4 | 5 | 6 => (boundary_heavy(rng, k, n), false),
         7 | 8 => (big_pts(rng, n.min(8)), true),
         9 => {
